@@ -2,6 +2,8 @@ import Proofs.PCQueueOrder
 import Proofs.ChainPool
 import Proofs.ChainLive
 import Proofs.PCQueueRefine
+import Proofs.PCQueueEintr
+import Proofs.ChainStream
 /-!
 # C17 — Queues and chains deliver each item exactly once, in order, and terminate
 
@@ -366,5 +368,73 @@ example : events demoInit [0,0,0,0,0, 1,1,1,1,1, 2,2,2,2,2, 0,0,0,0,0, 3,3,3,3,3
     = [.push 0 7, .push 1 9, .pop 2 7, .push 0 8, .pop 3 9, .pop 2 8] := by decide
 
 end refinement
+
+/-! ## Part 5: signals — `WaitSemaphore` is transparent to EINTR (util/pcqueue.hh:59-71)
+
+A signal handled without `SA_RESTART` makes `sem_wait` return EINTR; `WaitSemaphore` must go round its loop again.
+(Only the boost-semaphore variant is compiled on this platform; the `__APPLE__` variant — mach semaphores,
+`semaphore_wait` — is not compiled here and is outside the tie.) -/
+section eintr
+
+/-- **EINTR transparency.**  For every pattern of EINTR returns (any number `k`, unbounded):
+(1) the loop is left exactly by the `sem_wait` that took a token, with exactly one token taken;
+(2) while only EINTR has been returned the loop has not been left;
+(3) conversely whenever the loop has been left a token was available, exactly one was taken, by the last call;
+(4) at the level of the queue model an interrupt of a waiting thread is a stutter step, so the states reachable
+    with arbitrary interrupts are exactly the states reachable without, and every theorem of Part 1 holds
+    unchanged for `ReachI`. -/
+theorem wait_eintr_transparent :
+    (∀ (k c : Nat) (os : List WaitOutcome), 0 < c →
+        waitSemaphore c (List.replicate k .eintr ++ .taken :: os) = some (c - 1, os))
+    ∧ (∀ k c : Nat, waitSemaphore c (List.replicate k .eintr) = none)
+    ∧ (∀ (c c' : Nat) (l rest : List WaitOutcome), waitSemaphore c l = some (c', rest) →
+        ∃ k, l = List.replicate k .eintr ++ .taken :: rest ∧ 0 < c ∧ c' = c - 1)
+    ∧ (∀ s0 s : State, ReachI s0 s ↔ Reach s0 s) := by
+  refine ⟨fun k c os hc => waitSemaphore_returns k c hc os, waitSemaphore_waiting,
+          fun c c' l rest h => waitSemaphore_some h, fun s0 s => ⟨reachI_reach, ?_⟩⟩
+  intro h
+  induction h with
+  | init => exact .init
+  | step _ hs ih => exact .step ih hs
+
+/-- e.g. FIFO order with arbitrary interrupts -/
+theorem fifo_exactly_once_with_signals (hcap : 0 < cap) (hr : ReachI (mkInit cap ps qs) s) :
+    s.reads.map (·.2) = (s.writes.map (·.2)).take s.reads.length :=
+  fifo_exactly_once hcap (reachI_reach hr)
+
+/-- the theorem depends on the retry: the loop seeded as C17-3 leaves `WaitSemaphore` after an EINTR although the
+semaphore is empty and no token was taken -/
+example : waitSemaphoreFlagNeverSet 0 [.eintr, .taken] = some (0, [.taken])
+    ∧ waitSemaphore 0 [.eintr, .eintr] = none := by decide
+
+end eintr
+
+/-! ## Part 6: `util::stream::Stream` (util/stream/stream.hh) -/
+section stream
+open KV.Chain
+
+/-- **Stream records.**  For every sequence of blocks received by the `Link` of a `Stream` — any number of blocks,
+any pattern of empty blocks (first, last, consecutive, all) —
+`for (Stream s(position); s; ++s) yield(*s)` yields exactly the concatenation of the valid records of the blocks,
+in order, every read lying inside `ValidSize` of the current block (`get` returns `none` for a read beyond it, and
+no `none` appears); at the end the stream is null, and every block followed by exactly one poison has been passed
+downstream. -/
+theorem stream_records (blocks : List (List Nat)) :
+    (Stream.collect (blocks.flatten.length + 1) (Stream.init blocks)).1 = blocks.flatten.map some
+    ∧ (Stream.collect (blocks.flatten.length + 1) (Stream.init blocks)).2.null = true
+    ∧ (Stream.collect (blocks.flatten.length + 1) (Stream.init blocks)).2.link.finish = blocks.map some ++ [none] := by
+  cases blocks with
+  | nil => simp [Stream.init, SLink.init, startBlock, skipEmpty, Stream.collect, Stream.collectWith, SLink.finish]
+  | cons b0 rest =>
+    have := collect_from rest b0 [] false ((b0 :: rest).flatten.length + 1) (by omega)
+    simpa [Stream.init, SLink.init] using this
+
+/-- non-vacuity, and dependence on skipping ALL empty blocks: with two adjacent empty blocks the `StartBlock` of the
+change seeded as C17-4 lands on an empty block and reads beyond its `ValidSize` (`none`) -/
+example : (Stream.collect 10 (Stream.init [[1, 2], [], [], [3], []])).1 = [some 1, some 2, some 3]
+    ∧ (Stream.collectWith startBlockOnce 4 (startBlockOnce (SLink.init [[1, 2], [], [], [3]]))).1
+        = [some 1, some 2, none, none] := by decide
+
+end stream
 
 end KV.C17
